@@ -90,17 +90,26 @@ func (cache *MemoryCache[K, V]) Set(key K, value V, ttlSec float64) error {
 	ensureCacheInitialized(cache)
 
 	itemSize := float64(0)
-	if cache.calculateCacheSize && cache.calculateSizeFunc != nil {
+	// The size settings and the current size are written under the mutex (by
+	// WithMaxCacheSize, Set and the expiry goroutines), so they are read under it.
+	cache.mutex.RLock()
+	calculateSizeFunc := cache.calculateSizeFunc
+	if !cache.calculateCacheSize {
+		calculateSizeFunc = nil
+	}
+	currentCacheSize, maxCacheSize := cache.currentCacheSize, cache.maxCacheSize
+	cache.mutex.RUnlock()
+	if calculateSizeFunc != nil {
 		// We might miss here a momentary case of adding 2 messages when
 		// there is enough place for only one.
-		// The choice to put the check outside of the lock is intentional,
-		// we are 'saving' value allocation and lock by checking the size first
-		itemSize = cache.calculateSizeFunc(key, value)
-		if cache.currentCacheSize+itemSize > cache.maxCacheSize {
+		// This early check only saves the value allocation and the write lock;
+		// the limit is enforced again under the write lock below.
+		itemSize = calculateSizeFunc(key, value)
+		if currentCacheSize+itemSize > maxCacheSize {
 			return fmt.Errorf(
 				"Cannot add item: max cache size would be exceeded."+
 					" Current cache size is %v",
-				cache.currentCacheSize)
+				currentCacheSize)
 		}
 	}
 
@@ -142,6 +151,8 @@ func (cache *MemoryCache[K, V]) Del(key K) {
 func (cache *MemoryCache[K, V]) WithMaxCacheSize(
 	calculateSizeFunc func(K, V) float64, maxCacheSize float64,
 ) {
+	cache.mutex.Lock()
+	defer cache.mutex.Unlock()
 	cache.calculateCacheSize = true
 	cache.calculateSizeFunc = calculateSizeFunc
 	cache.maxCacheSize = maxCacheSize
